@@ -258,7 +258,22 @@ def gen_problem(rng, opts=None):
                 params.append([T("vol"), EQ, T(v)])
         if c in universes and place["u"] == "cell":
             params.append([T("u"), EQ, T(universes[c])])
-        if c in fills and place["fill"] == "cell":
+        if c in fills and place["fill"] == "cell" and o.get("lattice_arrays") and rng.random() < 0.6:
+            # a lattice cell filled with an array of universes (only drawn when the option is set, so that the
+            # problems generated for everybody else are unchanged): asymmetric shape and contents
+            used_u = sorted(set(universes.values()))
+            dims = rng.choice([(3, 2, 1), (2, 3, 1), (2, 2, 2), (1, 3, 2), (4, 1, 1), (2, 1, 3)])
+            lo = [rng.choice([0, 0, -1]) for _ in dims]
+            ranges = ["%d:%d" % (l, l + d - 1) for l, d in zip(lo, dims)]
+            n_el = dims[0] * dims[1] * dims[2]
+            entries = [rng.choice(used_u) for _ in range(n_el)]
+            if len(used_u) > 1 and len(set(entries)) == 1:
+                entries[rng.randrange(n_el)] = [u for u in used_u if u != entries[0]][0]
+            lat = rng.choice([1, 1, 2])
+            params.append([T("lat"), EQ, T(lat)])
+            params.append([T("fill"), EQ] + [T(r) for r in ranges] + [T(e) for e in entries])
+            P["meta"].setdefault("fill_arrays", {})[c] = {"ranges": ranges, "entries": entries, "lat": lat}
+        elif c in fills and place["fill"] == "cell":
             params.append([T("fill"), EQ, T(fills[c])])
         if o["params"] and rng.random() < 0.15:
             params.append([T("tmp"), EQ, T(fmt_real(rng, positive=True, style="sci"))])
